@@ -43,6 +43,10 @@ CHECKS["C16"] = dict(engine="det", design="4/C16", technique="runtime monitor: f
     text="Exploration. Reload-heavy histories: new configurations from the same grammar replace the current one at random points of running histories; every reload and every later step is judged (state preserved, settings applied, draining semantics, queues removed only when empty).")
 CHECKS["C17"] = dict(engine="det", design="4/C17", technique="runtime monitor: every application submission judged against the pre-step world by a reference evaluator of the rule chain (three-valued) plus necessary conditions (leaf, not draining, ACL of queue or ancestor, create flag, valid name parts, parent not a leaf, child template, recovery queue only when forced, rejection has a reason and leaves no trace)",
     text="Exploration of inputs x configurations. Generated rule chains, ACL layouts and child templates on the real core, with a reload that turns queues draining; thousands of submissions (users, groups, tags, requested names incl. invalid and the recovery name, forced or not) are judged one by one.")
+CHECKS["C07"] = dict(engine="det", design="4/C07", technique="runtime monitor: every PREEMPTED_BY_SCHEDULER announcement judged against the pre-step world (victim bound / not released / not already preempted / no required node / announced once; asker identified by the triggered-preemption flag that flipped; queue, fence, policy, shared type and priority rules; required-node and quota-change variants)",
+    text="Exploration. Constructed preemption worlds (nodes filled with RM-bound allocations of mixed queue, priority and required-node flags; queue trees with preemption and priority policies, offsets, fences and guarantees; back-dated askers) followed by random histories; every victim announced is re-evaluated independently on the snapshot taken before the step.")
+CHECKS["C08"] = dict(engine="det", design="4/C08", technique="runtime monitor: necessary conditions on every preemption batch (asker path has a guarantee it has not reached, victim side above its guarantee, reserved node + victims cover the ask, flagged set = announced set), quota-change batches (enabled, managed queue over its maximum with elapsed delay, claimed amount <= excess, victim queue above guarantee) and preempting-resource bookkeeping after every step",
+    text="Exploration. Same worlds as C07 with quota preemption enabled and reloads that lower maxima; the rules are order-independent necessary conditions derived from the statement, so a legitimate heuristic change cannot raise an alarm while protected victims, kills without effect, excess claims and bookkeeping slips are reported.")
 CHECKS["C12"] = dict(engine="det", design="4/C12", technique="crash-point monitor: two cores per case; the first is stopped at a protocol-quiescent point of a seeded history, the second is fed the shim's view only in a seeded order; oracle = no rejection + equality of per-node/queue/application/user totals + capacity/quota/accounting oracles on 30 further operations",
     text="Exploration of crash points x replay orders. Every case stops the real core at a quiescent point of a seeded history (gang applications, foreign allocations, RM-bound allocations, reloads that lower quotas), starts a new core and replays nodes, force-created applications, bound allocations and outstanding asks in a seeded order; any rejection, any difference in totals and any violation in the scheduling that follows is reported.")
 CHECKS["C13"] = dict(engine="det", design="4/C13", technique="hostile-input monitor: generated SI messages injected into reachable states in child processes; every message logged before sending; oracle = process alive + barrier returns + matching rejection + ledger snapshot unchanged + conservation",
